@@ -3,4 +3,5 @@ let table : (string * (z list -> z list)) list = [
   ("plc", run_plc);
   ("logix", run_logix);
   ("tnet", run_tnet);
+  ("route", run_route);
 ]
